@@ -44,9 +44,16 @@ def run_replace_property(pid, tier, seed, replay, propfiles, make_runs, rule, as
             run.count("frac=%s" % r["frac"])
             run.count("replace_all=%s" % r["replace_all"])
             run.count("cell=" + r["p"]["case"]["cellkind"])
-            complaints = RG.compare(r["p"], res, r["replace_all"], r["ignore"], r["frac"], parts=r["parts"])
+            try:
+                complaints = RG.compare(r["p"], res, r["replace_all"], r["ignore"], r["frac"], parts=r["parts"])
+            except Exception as ex:      # noqa
+                # the statement cannot even be evaluated on what came back (e.g. terms that refer to atoms that do not exist)
+                complaints = ["the result is not a consistent structure: evaluating the statement on it raised %s: %s" % (type(ex).__name__, ex)]
             if extra:
-                complaints += extra(r, res, run)
+                try:
+                    complaints += extra(r, res, run)
+                except Exception as ex:      # noqa
+                    complaints.append("a follow-up operation on the result raised %s: %s" % (type(ex).__name__, ex))
             kf = known(r, res, complaints) if (known and complaints) else None
             if kf is not None:
                 known_hits[kf["id"]] = (kf, complaints[0])
